@@ -78,6 +78,8 @@ def wf_oracle(nap, o):
     r = wf_oracle(nap, o.time_support)
     if r:
         return "support: " + r
+    if len(t) and len(sup) == 0 and float(t[0]) == float(t[-1]):
+        return "zero-span series (all timestamps equal) built without a time support: its default support IntervalSet(t0, t0) is empty, so its samples lie outside it"
     for x in t:
         if not any(s <= x <= e for s, e in sup):
             return "timestamp %r outside the time support" % float(x)
